@@ -1,0 +1,117 @@
+// Copyright 2026 Dolthub, Inc.
+//
+// Licensed under the Apache License, Version 2.0 (the "License");
+// you may not use this file except in compliance with the License.
+// You may obtain a copy of the License at
+//
+//     http://www.apache.org/licenses/LICENSE-2.0
+//
+// Unless required by applicable law or agreed to in writing, software
+// distributed under the License is distributed on an "AS IS" BASIS,
+// WITHOUT WARRANTIES OR CONDITIONS OF ANY KIND, either express or implied.
+// See the License for the specific language governing permissions and
+// limitations under the License.
+
+//go:build verif
+
+package binlogreplication
+
+import (
+	"context"
+	"time"
+
+	"github.com/dolthub/go-mysql-server/sql"
+	gmstypes "github.com/dolthub/go-mysql-server/sql/types"
+	"github.com/dolthub/vitess/go/vt/proto/query"
+
+	"github.com/dolthub/dolt/go/libraries/doltcore/schema"
+)
+
+// Verification vocabulary (ghost code, compiled only with -tags verif). The
+// bodies are executable so that contracts can also be run concretely.
+
+func verif_old[T any](x T) T { return x }
+
+// verif_loopold(e) in a loop invariant: the value of e when the loop was entered (contracts only).
+func verif_loopold[T any](x T) T { return x }
+
+func verif_res[T any](i int) T { var z T; return z }
+
+func verif_implies(a, b bool) bool { return !a || b }
+
+func verif_forall(lo, hi int, f func(int) bool) bool {
+	for k := lo; k < hi; k++ {
+		if !f(k) {
+			return false
+		}
+	}
+	return true
+}
+
+func verif_exists(lo, hi int, f func(int) bool) bool {
+	for k := lo; k < hi; k++ {
+		if f(k) {
+			return true
+		}
+	}
+	return false
+}
+
+func verif_assert(b bool) {
+	if !b {
+		panic("verif_assert failed")
+	}
+}
+
+func verif_assume(b bool) {}
+
+// verif_sameslice(a, b): a and b are the same window of the same backing array (contracts only; the executable
+// body cannot tell two empty windows apart).
+func verif_sameslice[T any](a, b []T) bool {
+	return len(a) == len(b) && (len(a) == 0 || &a[0] == &b[0])
+}
+
+// verif_rangeidx stands for the number of completed iterations of the enclosing range loop (contracts only).
+func verif_rangeidx() int { return 0 }
+
+// verif_arg stands for the i-th argument of the call a call-site assertion is attached to (contracts only).
+func verif_arg[T any](i int) T { var z T; return z }
+
+// ---- ghost state (C40)
+
+var verif_ghost struct {
+	bBits   uint8       // result of the most recent BitType.NumberOfBits
+	bConv   interface{} // result of the most recent Type.Convert
+	rStored int         // result of the most recent ColCollection.StoredSize
+	tMicro  int64       // result of the most recent Time.UnixMicro
+	tKind   query.Type  // result of the most recent sql.Type.Type()
+}
+
+func verif_x_NumberOfBits(t gmstypes.BitType) (n uint8) { return t.NumberOfBits() }
+
+func verif_x_Convert(t sql.Type, ctx context.Context, v interface{}) (r interface{}, ir sql.ConvertInRange, err error) {
+	return t.Convert(ctx, v)
+}
+
+func verif_x_StoredSize(cc *schema.ColCollection) (n int) { return cc.StoredSize() }
+
+// verif_b2i is 1 for true and 0 for false.
+func verif_b2i(b bool) int {
+	if b {
+		return 1
+	}
+	return 0
+}
+
+// verif_nbits(t) is the declared width of the BIT type t (uninterpreted).
+func verif_nbits(t gmstypes.BitType) uint8 { return 0 }
+
+// verif_hms packs a non-negative number of seconds as the TIME2 format does: hours<<12 | minutes<<6 | seconds.
+func verif_hms(s int64) int64 { return (s/3600)<<12 | (s/60%60)<<6 | s%60 }
+
+// verif_be24(b, o) is the big-endian 24-bit integer in b[o:o+3].
+func verif_be24(b []byte, o int) int64 { return int64(b[o])<<16 | int64(b[o+1])<<8 | int64(b[o+2]) }
+
+func verif_x_UnixMicro(t time.Time) (us int64) { return t.UnixMicro() }
+
+func verif_x_Type_Type(t sql.Type) (k query.Type) { return t.Type() }
